@@ -83,8 +83,8 @@ def run(ctx):
         ctx.count('defragmenter_slices', 'X' if 'X:' in ra else 'ok')
         if 'X:' in ra or side.get('remptr') == 'bad':
             ctx.violation('defragmenter result references memory outside the record and the buffer: %s' % ra[:200], {'lines': [ln]}, key='rp:X')
-        exp = ' ; '.join(h.exp)
-        if ra != exp:
+        exp = c07.norm_steps(' ; '.join(h.exp))
+        if c07.norm_steps(ra) != exp:
             ctx.violation('defragmenter result slices differ from accumulate-then-parse: "%s" vs "%s"' % (ra[:160], exp[:160]), {'lines': [ln], 'expect': exp}, key='rp:span')
     common.lean_failure_violation(ctx, ok)
     return ctx.finish(LEVEL,
